@@ -7,19 +7,123 @@ import numlib as nl
 
 ID = "C10"
 MODULES = ["Util"]
-LEAN_TARGETS = ["Props.C10"]
+LEAN_TARGETS = ["Props.C10", "Props.C10G"]
 ANCHORS = ["cyecca/util.py"]
 MISSING = [
     "sqrt_correct: generic theorem Lib/SqrtFilter for all dimensions under the QR contract (Q^T Q = 1, Q R = A), instantiated on the QR-abstracted "
     "variant of the real routine for n = 3, m = 2 (and on the estimator's 6x1 / 6x2 uses in C11); n = m = 1 with CasADi's symbolic QR inlined; "
     "ca.qr meeting the contract, and the variant composed with ca.qr being the shipped routine, are checked numerically each run; other sizes: search only",
-    "LDL/UDU for every n by induction over a hand model (proved for the translated sizes n = 1..4)",
+    "LDL^T for EVERY size n: theorems of Props/C10G over the hand model Model/Ldl.lean (unit lower triangular L, L D L^T = P on the lower triangle "
+    "given non-zero pivots, on the whole matrix for symmetric P), tied to the real routine by the correspondence run of this check (sizes 1..6, "
+    "unit / tiny / huge / mixed scales) — that tie is sampled, not proved; UDU^T for every n: not modelled generically (proved for the translated sizes)",
     "RK4 order 4 for arbitrary smooth vector fields (proved: exact for cubic-in-time derivatives, degree-4 Taylor polynomial of the linear ODE, consistency)",
 ]
 
 
+TRUSTED_EXTRA = ["hand model Model/Ldl.lean of ldl_symmetric_decomposition for every size: tied to the routine by differential runs (relative 1e-12 per entry)"]
+
+
 def relevant(fn):
     return True
+
+
+def _bits(x):
+    import struct
+    return str(struct.unpack("<Q", struct.pack("<d", float(x)))[0])
+
+
+def _unbits(w):
+    import struct
+    return struct.unpack("<d", struct.pack("<Q", int(w)))[0]
+
+
+def _lean_ldl(lines):
+    import os, subprocess
+    VERIF = os.path.dirname(os.path.dirname(os.path.dirname(os.path.abspath(__file__))))
+    LEAN = os.path.join(VERIF, "lean")
+    drv = os.path.join(VERIF, "work", "driver", "c10_%d.lean" % os.getpid())
+    os.makedirs(os.path.dirname(drv), exist_ok=True)
+    with open(drv, "w") as fh:
+        fh.write("import Model.LdlIO\ndef main : IO Unit := LdlModel.loop\n")
+    try:
+        rc = subprocess.run(["lake", "build", "Model.LdlIO"], cwd=LEAN, capture_output=True, text=True)
+        if rc.returncode != 0:
+            raise RuntimeError("model does not build: " + (rc.stdout + rc.stderr)[-800:])
+        p = subprocess.run(["lake", "env", "lean", "--run", drv], cwd=LEAN, input="\n".join(lines) + "\n", capture_output=True, text=True)
+        if p.returncode != 0:
+            raise RuntimeError("model driver failed: " + p.stderr[-800:])
+        return p.stdout.splitlines()
+    finally:
+        os.remove(drv)
+
+
+def scaled_spd(rng, n, mode):
+    A = rng.standard_normal((n, n)); P = A @ A.T + 0.5 * np.eye(n)
+    if mode == "tiny":
+        P = P * 1e-10
+    elif mode == "huge":
+        P = P * 1e8
+    elif mode == "mixed":
+        sc = 10.0 ** (-rng.integers(0, 6, size=n).astype(float))
+        P = (sc[:, None] * P) * sc[None, :]
+    elif mode == "mixed-tail":
+        sc = np.array([1.0] * (n - n // 2) + [1e-5] * (n // 2))
+        P = (sc[:, None] * P) * sc[None, :]
+    return (P + P.T) / 2
+
+
+def tie(ctx):
+    """correspondence of the every-size LDL hand model (Model/Ldl.lean, Float instance) with the real routine"""
+    import casadi as ca
+    import cyecca.util as u
+    rng = np.random.default_rng(ctx.seed + 10010)
+    reps = 3 if ctx.tier == "quick" else 30
+    cases = []
+    for n in range(1, 7):
+        for r in range(reps):
+            for mode in ("unit", "tiny", "huge", "mixed", "mixed-tail"):
+                P = scaled_spd(rng, n, mode)
+                if r % 3 == 2:
+                    P = P + np.triu(rng.standard_normal((n, n)), 1) * 0.0   # (kept symmetric: the routine reads the lower triangle only)
+                cases.append((n, mode, P))
+    lines = ["%d %s" % (n, " ".join(_bits(x) for x in P.ravel())) for (n, mode, P) in cases]
+    out = _lean_ldl(lines)
+    hist = {"sizes": {}, "scalings": {}, "cases": len(cases), "mismatches": 0, "max_rel": 0.0}
+    bad = []
+    fns = {}
+    for (n, mode, P), w in zip(cases, out):
+        hist["sizes"][str(n)] = hist["sizes"].get(str(n), 0) + 1
+        hist["scalings"][mode] = hist["scalings"].get(mode, 0) + 1
+        if n not in fns:
+            Ps = ca.SX.sym("P", n, n)
+            L, D = u.ldl_symmetric_decomposition(Ps)
+            fns[n] = ca.Function("l", [Ps], [ca.densify(L), ca.densify(D)])
+        try:
+            L_, D_ = (np.array(x, dtype=float).reshape(n, n) for x in fns[n](P))
+            Lc, Dc = u.ldl_symmetric_decomposition(ca.SX(ca.DM(P)))      # the routine on a constant matrix as well
+            Lc = np.array(ca.DM(ca.densify(Lc)), dtype=float).reshape(n, n); Dc = np.array(ca.DM(ca.densify(Dc)), dtype=float).reshape(n, n)
+        except Exception as e:   # noqa: BLE001
+            hist["mismatches"] += 1
+            bad.append({"n": n, "scaling": mode, "P": P.tolist(), "error": "%s: %s" % (type(e).__name__, str(e)[:200])}); continue
+        if w.startswith("ERR"):
+            hist["mismatches"] += 1; bad.append({"n": n, "scaling": mode, "model": w}); continue
+        vals = [_unbits(x) for x in w.split()]
+        Lm = np.array(vals[: n * n]).reshape(n, n); Dm = np.array(vals[n * n:])
+        rel = 0.0
+        for (Lr, Dr) in ((L_, D_), (Lc, Dc)):
+            with np.errstate(all="ignore"):
+                rel = max(rel, float(np.max(np.abs(Lr - Lm) / (1e-300 + np.maximum(1.0, np.abs(Lm))))),
+                          float(np.max(np.abs(np.diag(Dr) - Dm) / (1e-300 + np.abs(Dm)))),
+                          float(np.max(np.abs(Dr - np.diag(np.diag(Dr))))))
+        hist["max_rel"] = max(hist["max_rel"], rel if np.isfinite(rel) else 1e300)
+        if not rel <= 1e-12:
+            hist["mismatches"] += 1
+            if len(bad) < 5:
+                bad.append({"n": n, "scaling": mode, "P": P.tolist(), "rel": rel, "L_real": L_.tolist(), "L_model": Lm.tolist(),
+                            "D_real": np.diag(D_).tolist(), "D_model": Dm.tolist()})
+    ctx.extra["ldl_model_tie"] = hist
+    if bad:
+        ctx.fail("tie:ldl-model", "correspondence", {"first": bad[:5], "mismatches": hist["mismatches"], "cases": hist["cases"]})
 
 
 def search(ctx):
@@ -85,16 +189,30 @@ def search(ctx):
         Ps = ca.SX.sym("P", n, n)
         L, D = u.ldl_symmetric_decomposition(Ps); fl = ca.Function("l", [Ps], [ca.densify(L), ca.densify(D)])
         U, D2 = u.udu_symmetric_decomposition(Ps); fu = ca.Function("u", [Ps], [ca.densify(U), ca.densify(D2)])
-        for r in range(reps):
+        for r in range(reps + 4):
             A = rng.standard_normal((n, n)); P = A @ A.T + 0.5 * np.eye(n)
+            # covariances are not O(1): uniformly tiny / huge ones and mixed scales (attitude 1e-2, bias 1e-10 variances).
+            # The factorizations are covariant under diagonal scaling, so the error is measured on the correlation scale.
+            mode = ["unit", "unit", "tiny", "huge", "mixed", "mixed-tail"][r % 6] if r >= 2 else "unit"
+            if mode == "tiny":
+                P = P * 1e-10
+            elif mode == "huge":
+                P = P * 1e8
+            elif mode in ("mixed", "mixed-tail"):
+                sc = 10.0 ** (-rng.integers(0, 6, size=n).astype(float)) if mode == "mixed" else np.array([1.0] * (n - n // 2) + [1e-5] * (n // 2))
+                P = (sc[:, None] * P) * sc[None, :]
+            P = (P + P.T) / 2
+            dg = np.sqrt(np.diag(P)); Sn = dg[:, None] * dg[None, :]
+            tol = 1e-9 * np.linalg.cond(P / Sn)
             L_, D_ = (np.array(x) for x in fl(P)); U_, D2_ = (np.array(x) for x in fu(P)); ev += 2
-            inp = {"n": n, "P": P.tolist()}
-            if not (np.max(np.abs(L_ @ D_ @ L_.T - P)) <= 1e-9 * (1 + np.max(np.abs(P))) * np.linalg.cond(P)
+            inp = {"n": n, "P": P.tolist(), "scaling": mode}
+            eL = np.max(np.abs((L_ @ D_ @ L_.T - P) / Sn)); eU = np.max(np.abs((U_ @ D2_ @ U_.T - P) / Sn))
+            if not (eL <= tol
                     and np.allclose(np.diag(L_), 1) and np.max(np.abs(np.triu(L_, 1))) == 0 and np.max(np.abs(D_ - np.diag(np.diag(D_)))) == 0):
-                report("ldl", "L D L^T != P or L not unit lower triangular / D not diagonal", inp, np.max(np.abs(L_ @ D_ @ L_.T - P)), 1e-9)
-            if not (np.max(np.abs(U_ @ D2_ @ U_.T - P)) <= 1e-9 * (1 + np.max(np.abs(P))) * np.linalg.cond(P)
+                report("ldl" if mode == "unit" else "ldl:scaled", "L D L^T != P or L not unit lower triangular / D not diagonal (%s scaling)" % mode, inp, eL, tol)
+            if not (eU <= tol
                     and np.allclose(np.diag(U_), 1) and np.max(np.abs(np.tril(U_, -1))) == 0 and np.max(np.abs(D2_ - np.diag(np.diag(D2_)))) == 0):
-                report("udu", "U D U^T != P or U not unit upper triangular / D not diagonal", inp, np.max(np.abs(U_ @ D2_ @ U_.T - P)), 1e-9)
+                report("udu" if mode == "unit" else "udu:scaled", "U D U^T != P or U not unit upper triangular / D not diagonal (%s scaling)" % mode, inp, eU, tol)
     # factorizations of matrices WITH zero entries (arrow / banded covariances: the factor has fill-in), handed over the two ways
     # a caller can: as a constant SX matrix (exact 0.0 entries) and as a symbolic matrix with a sparse pattern
     for n in (3, 4, 5):
